@@ -192,7 +192,7 @@ def shard(job):
     e.update(seqxrun.ASAN_ENV)
     e.update(env)
     p = subprocess.Popen([exe] + [str(a) for a in args], stdout=subprocess.PIPE, stderr=subprocess.PIPE, env=e)
-    res = {"checked": 0, "violations": [], "perkey": {}, "violation_count": 0, "ids": set(), "summary": None, "raw_specials": {}, "samples": []}
+    res = {"checked": 0, "violations": [], "perkey": {}, "violation_count": 0, "ids": set(), "summary": None, "raw_specials": {}, "samples": [], "shapes": set()}
     ids = res["ids"]
     for line in p.stdout:
         if line.startswith(b"C\t"):
@@ -201,6 +201,9 @@ def shard(job):
             out = bytes.fromhex(hx.decode())
             vs = check_sentry(meta, out, ids) if meta["mode"] == "s" else check_json(meta, out)
             res["checked"] += 1
+            # distinct non-trivial cases: distinct (mode, message, attribute names+values, source location) inputs whose output needed escaping or carried custom attributes
+            if meta["attrs"] or any(ord(ch) < 0x20 or ord(ch) > 0x7e or ch in '"\\' for ch in meta["message"]) or meta["file"] is None:
+                res["shapes"].add(hash((meta["mode"], meta["message"], json.dumps(meta["attrs"], sort_keys=True), meta["file"], meta["function"], meta["category"], meta["type"])))
             for ch, name in ((b"\xe2\x80\xa8", "raw U+2028"), (b"\xe2\x80\xa9", "raw U+2029"), (b"\xc2\x85", "raw U+0085")):
                 if ch in out:
                     res["raw_specials"][name] = res["raw_specials"].get(name, 0) + 1
